@@ -139,3 +139,67 @@ extern "C" void harness_c18_pstrtod_nodigits() {
   ASSERT(got == 0.0 && ep == s, "C18 pstrtod on text without digits returns 0 and leaves endptr at the start");
   WITNESS();
 }
+
+// ---- Grisu boundaries: m- / m+ of a double are the exact midpoints to its neighbours
+void DiyFp_from_double(DiyFpLike *self, double d) asm("_ZN5DiyFpC2Ed");
+void NormalizedBoundaries_real(const DiyFpLike *self, DiyFpLike *minus, DiyFpLike *plus) asm("_ZNK5DiyFp20NormalizedBoundariesEPS_S0_");
+extern "C" void harness_c18_boundaries() {
+  unsigned long bits = nondet_ulong();
+  unsigned long ex = (bits >> 52) & 0x7ff;
+  ASSUME((bits >> 63) == 0 && ex >= 2 && ex <= 0x7fd);          // positive normal, neighbours normal too
+  union { double d; unsigned long u; } v, lo, hi;
+  v.u = bits; lo.u = bits - 1; hi.u = bits + 1;                   // predecessor and successor doubles
+  DiyFpLike w, m, p;
+  DiyFp_from_double(&w, v.d);
+  NormalizedBoundaries_real(&w, &m, &p);
+  // significands with the hidden bit and unbiased exponents (value = f * 2^e)
+  unsigned long fv = (bits & 0xfffffffffffffUL) | 0x10000000000000UL;  long ev = (long)ex - 1075;
+  unsigned long fl = (lo.u & 0xfffffffffffffUL) | 0x10000000000000UL;  long el = (long)((lo.u >> 52) & 0x7ff) - 1075;
+  unsigned long fh = (hi.u & 0xfffffffffffffUL) | 0x10000000000000UL;  long eh = (long)((hi.u >> 52) & 0x7ff) - 1075;
+  ASSERT(w.f == fv && w.e == (int)ev, "C18 DiyFp(double) decomposes the double exactly");
+  // midpoints scaled to the exponent e0 = min(e) - 1:  mid = (a*2^ea + b*2^eb) / 2
+  long e0 = (el < ev ? el : ev) - 1;
+  unsigned long mid_lo = (fv << (ev - e0 - 1)) + (fl << (el - e0 - 1));
+  long e1 = ev - 1;                                              // eh >= ev
+  unsigned long mid_hi = (fv << (ev - e1 - 1)) + (fh << (eh - e1 - 1));
+  ASSERT(m.e == p.e, "C18 Grisu boundaries share one exponent");
+  ASSERT(m.e <= e0 && (e0 - m.e) < 12 && m.f == (mid_lo << (e0 - m.e)), "C18 lower Grisu boundary is the midpoint to the predecessor double");
+  ASSERT(p.e <= e1 && (e1 - p.e) < 12 && p.f == (mid_hi << (e1 - p.e)), "C18 upper Grisu boundary is the midpoint to the successor double");
+  ASSERT((p.f >> 63) == 1, "C18 upper Grisu boundary is normalised");
+  WITNESS();
+}
+
+// ---- pstrtod on long integer literals (mantissa saturation region): within 2^-51 relative of the exact value
+#ifndef NLONG
+#define NLONG 20
+#endif
+extern "C" void harness_c18_pstrtod_long() {
+  char s[NLONG + 2];
+  unsigned __int128 exact = 0;
+  for (int i = 0; i < NLONG; i++) {
+    char c = nondet_char();
+    ASSUME(c >= '0' && c <= '9');
+    s[i] = c;
+    exact = exact * 10 + (unsigned)(c - '0');
+  }
+  ASSUME(s[0] != '0');
+  s[NLONG] = 0;
+  char *ep = 0;
+  double got = pstrtod(s, &ep);
+  ASSERT(ep == s + NLONG, "C18 pstrtod consumes a long literal completely");
+  // a NLONG-digit integer without leading zero lies in [10^(NLONG-1), 10^NLONG]: cheap magnitude bracket that any
+  // wrap-around or dropped digit of the mantissa accumulation violates (the 2^-51 relative bound below is only
+  // compiled in with -DLONG_PRECISE: it needs a 128-bit product comparison that the SAT back end does not finish)
+  static const double p10[23] = {1e0, 1e1, 1e2, 1e3, 1e4, 1e5, 1e6, 1e7, 1e8, 1e9, 1e10, 1e11, 1e12, 1e13, 1e14, 1e15,
+                                 1e16, 1e17, 1e18, 1e19, 1e20, 1e21, 1e22};
+  ASSERT(got >= p10[NLONG - 1] && got <= p10[NLONG], "C18 pstrtod of a long integer literal has the magnitude of its digit count");
+  // leading digits: the first digit d brackets the value in [d*10^(n-1), (d+1)*10^(n-1)]
+  double d0 = (double)(s[0] - '0');
+  ASSERT(got >= d0 * p10[NLONG - 1] && got <= (d0 + 1.0) * p10[NLONG - 1], "C18 pstrtod of a long integer literal keeps its leading digit");
+#ifdef LONG_PRECISE
+  unsigned __int128 g = (unsigned __int128)got;                   // doubles >= 2^53 are integers: exact conversion
+  unsigned __int128 tol = exact >> 51;
+  ASSERT(g >= exact - tol && g <= exact + tol, "C18 pstrtod of a long integer literal is within 2^-51 of the exact value");
+#endif
+  WITNESS();
+}
